@@ -2496,6 +2496,10 @@ impl DnsIncoming {
         let mut name = "".to_string();
         let mut at_end = false;
 
+        // Every compression pointer must point strictly below the previous pointer's
+        // target (initially the start of this name), which guarantees termination.
+        let mut pointer_limit = start_offset;
+
         // From RFC1035:
         // "...Domain names in messages are expressed in terms of a sequence of labels.
         // Each label is represented as a one octet length field followed by that
@@ -2559,13 +2563,14 @@ impl DnsIncoming {
                         )));
                     }
                     let pointer = (u16_from_be_slice(slice) ^ 0xC000) as usize;
-                    if pointer >= start_offset {
+                    if pointer >= pointer_limit {
                         // Error: could trigger an infinite loop.
                         return Err(Error::Msg(format!(
-                            "Invalid name compression: pointer {} must be less than the start offset {}",
-                            &pointer, &start_offset
+                            "Invalid name compression: pointer {} must be less than {}",
+                            &pointer, &pointer_limit
                         )));
                     }
+                    pointer_limit = pointer;
 
                     // A pointer marks the end of a domain name.
                     if !at_end {
